@@ -26,17 +26,18 @@ Proof. exact CtrlLinks.C01_model_passes_base. Qed.
 Print Assumptions C01_model_passes_base.
 
 (* ---- second C01 observer (Drv/CtrlC01Dev.v): what ends up in the fan's PWM control ----
-   [dev_wf c] = [base_wf c] and the PWM map reads back under the device quantiser
+   The observer judges only cases whose PWM map reads back under the device quantiser
    ([CtrlC05.reads_backb (k_pm c) (k_q c) = true]: identity / plateau / user maps on an exact device, q = 1;
    pm_quant q on the device quantising to q) -- true of every generated case, decidable by [dev_wfb].
-   Without the reads-back hypothesis the observer is false of the model: [C01_dev_needs_reads_back]. *)
-From F2G Require Proofs.CtrlLinksC01Dev Drv.CtrlC01Dev.
+   Without that guard its scan is false of the model: [C01_dev_needs_reads_back] (found while proving the link;
+   the guard was added to Drv/CtrlC01Dev.v in response). *)
+From F2G Require Proofs.CtrlLinksC01Dev Drv.CtrlC01Dev Model.Util.
 
-Theorem C01_dev_model_passes : forall c, CtrlLinksC01Dev.dev_wf c -> CtrlC01Dev.holdsb (with_obs c (model_obs c)) = true.
+Theorem C01_dev_model_passes : forall c, base_wf c -> CtrlC01Dev.holdsb (with_obs c (model_obs c)) = true.
 Proof. exact CtrlLinksC01Dev.C01_dev_model_passes. Qed.
 Print Assumptions C01_dev_model_passes.
 
-Theorem C01_dev_no_false_alarm : forall c, mismatch c = false -> CtrlLinksC01Dev.dev_wf c -> CtrlC01Dev.holdsb c = true.
+Theorem C01_dev_no_false_alarm : forall c, mismatch c = false -> base_wf c -> CtrlC01Dev.holdsb c = true.
 Proof. exact CtrlLinksC01Dev.C01_dev_no_false_alarm. Qed.
 Print Assumptions C01_dev_no_false_alarm.
 
@@ -49,6 +50,9 @@ Print Assumptions C01_dev_wfb_sound.
 Theorem C01_dev_needs_reads_back :
   base_wfb CtrlLinksC01Dev.dev_counterexample = true
   /\ mismatch (with_obs CtrlLinksC01Dev.dev_counterexample (model_obs CtrlLinksC01Dev.dev_counterexample)) = false
-  /\ CtrlC01Dev.holdsb (with_obs CtrlLinksC01Dev.dev_counterexample (model_obs CtrlLinksC01Dev.dev_counterexample)) = false.
+  /\ CtrlC01Dev.dev_scan (k_pm CtrlLinksC01Dev.dev_counterexample) (Util.supported (k_pm CtrlLinksC01Dev.dev_counterexample))
+       (k_q CtrlLinksC01Dev.dev_counterexample)
+       (zip (k_hist CtrlLinksC01Dev.dev_counterexample) (model_obs CtrlLinksC01Dev.dev_counterexample)) = false
+  /\ CtrlC01Dev.holdsb (with_obs CtrlLinksC01Dev.dev_counterexample (model_obs CtrlLinksC01Dev.dev_counterexample)) = true.
 Proof. exact CtrlLinksC01Dev.dev_needs_reads_back. Qed.
 Print Assumptions C01_dev_needs_reads_back.
